@@ -11,6 +11,7 @@ import GeoVerif.Driver.Pair
 import GeoVerif.Driver.Valid
 import GeoVerif.Driver.UiFile
 import GeoVerif.Driver.Depths
+import GeoVerif.Driver.Records
 open Lean GeoVerif.Driver
 
 structure DSt where
@@ -18,6 +19,7 @@ structure DSt where
   geom : GeomD.St := GeomD.init
   ws : WsD.St := WsD.init
   life : LifeD.St := LifeD.init0
+  recs : RecordsD.St := GeoVerif.Records.empty
 
 def stepLine (st : DSt) (line : String) : DSt × String :=
   match Json.parse line with
@@ -36,6 +38,7 @@ def stepLine (st : DSt) (line : String) : DSt × String :=
     | "valid" => (st, (ValidD.handle j).compress)
     | "uifile" => (st, (UiFileD.handle j).compress)
     | "depths" => (st, (DepthsD.handle j).compress)
+    | "records" => let (s, o) := RecordsD.handle st.recs j; ({ st with recs := s }, o.compress)
     | "life" => let (s, o) := LifeD.handle st.life j; ({ st with life := s }, o.compress)
     | _ => (st, "\"bad-model\"")
 
